@@ -1034,7 +1034,7 @@ Fixpoint let_bind (vars : list sx) (bound : list sx) : M (list sx) :=
 
 Definition do_let (args : sx) : M sx :=
   '(varlist, rest) <- arg_req false args ;;
-  if negb (consp rest) then fail EType
+  if negb (listp rest) then fail EType
   else
     bound <- let_bind (items varlist) [] ;;
     catch (eval_progn rest) (fun r => _ <- unbind_all bound ;; lift r).
@@ -1429,7 +1429,7 @@ Definition apply_prim (p : prim) (args : sx) : M sx :=
   | PFuncall =>
       '(name, rest) <- arg_req false args ;;
       n1 <- ev name ;; n2 <- ev n1 ;; call true n2 rest
-  | PAnd => and_l (items args) Nil
+  | PAnd => and_l (items args) T
   | POr => or_l (items args)
   | PDeclare => ret Nil
   | PTick =>
@@ -1496,7 +1496,7 @@ Definition step (t : task) : M sx :=
       else ret r
   | TWhile c body last =>
       v <- ev c ;;
-      if null v then ret last
+      if null v then ret Nil
       else r <- eval_progn body ;; rec (TWhile c body r)
   | TDotimes var i n body =>
       if i <? n then
